@@ -185,6 +185,17 @@ func (cg *caseGen) cls() *pvcase.Expr {
 				tot += c.w
 			}
 			for n := 1 + cg.r.IntN(5)/4; n > 0; n-- {
+				if cg.chance(0.25) {
+					// ANY class name Go's tables know (categories, properties, scripts), most often one with a member below
+					// U+0080 (round 17: a Basic Latin table that skipped the classes whose Latin-1 offset is 0 - Pc, Pd, Dash,
+					// Other_Math reach `_`, `-`, `^` through a strided range that ends beyond Latin-1)
+					if cg.chance(0.7) {
+						classes = append(classes, asciiClassNames[cg.r.IntN(len(asciiClassNames))])
+					} else {
+						classes = append(classes, allClassNames[cg.r.IntN(len(allClassNames))])
+					}
+					continue
+				}
 				x := cg.r.IntN(tot)
 				for _, c := range classNames {
 					if x < c.w {
